@@ -1,5 +1,6 @@
 import PW.Proofs.LayoutLemmas
 import PW.Proofs.RoutingLemmas
+import PW.Proofs.RoutingLemmas2
 /-!
 # C20 — product spaces are joined only when needed; bystander blocks are untouched
 
@@ -47,6 +48,21 @@ leaves every block that does not hold it untouched -/
 theorem bystander_untouched_by_member_request (l : Layout) (t : Nat) (r : Bool) (b : Block) (hb : b ∈ l)
     (hm : t ∉ b.members) : b ∈ PW.Routing.memberFront l t r := PW.Routing.memberFront_bystander l t r b hb hm
 
+theorem bystander_untouched_by_channel (i : PW.Routing.Info) (l : Layout) (c : Nat) (T : List Nat) (b : Block)
+    (hb : b ∈ l) (hwf : (allMembers l).Nodup) (hm : meets T b = false) : b ∈ PW.Routing.ceKraus i l c T :=
+  PW.Routing.ceKraus_bystander i l c T b hb hwf hm
+theorem bystander_untouched_by_partial_trace (l : Layout) (c : Nat) (T : List Nat) (b : Block)
+    (hb : b ∈ l) (hwf : (allMembers l).Nodup) (hm : meets T b = false) : b ∈ PW.Routing.ceTraceOut l c T :=
+  PW.Routing.ceTraceOut_bystander l c T b hb hwf hm
+theorem bystander_untouched_by_povm_routing (l : Layout) (c : Nat) (T : List Nat) (b : Block)
+    (hb : b ∈ l) (hwf : (allMembers l).Nodup) (hm : meets T b = false) : b ∈ PW.Routing.cePovm l c T :=
+  PW.Routing.cePovm_bystander l c T b hb hwf hm
+theorem bystander_untouched_by_resize (l : Layout) (f : Nat) (b : Block) (hb : b ∈ l) (hf : f ∉ b.members) :
+    b ∈ PW.Routing.actResize l f := PW.Routing.actResize_bystander l f b hb hf
+theorem bystander_untouched_by_measurement (l : Layout) (M surv : List Nat) (b : Block) (hb : b ∈ l)
+    (hne : b.members ≠ []) (hm : ∀ x ∈ b.members, x ∉ M) : b ∈ PW.Routing.actMeasure l M surv :=
+  PW.Routing.actMeasure_bystander l M surv b hb hne hm
+
 /-- non-vacuity: CNOT on subsystems 1 and 3 of [own 0], [env 1 2], [own 3], [ps 4 5] joins exactly
 the envelope block and subsystem 3 and leaves the others -/
 example : combine [⟨.own, [0]⟩, ⟨.env, [1, 2]⟩, ⟨.own, [3]⟩, ⟨.ps 0, [4, 5]⟩] 0 [1, 3]
@@ -63,3 +79,8 @@ end PW.Props.C20
 #print axioms PW.Props.C20.bystander_untouched_by_operation
 #print axioms PW.Props.C20.bystander_untouched_by_reorder
 #print axioms PW.Props.C20.bystander_untouched_by_member_request
+#print axioms PW.Props.C20.bystander_untouched_by_channel
+#print axioms PW.Props.C20.bystander_untouched_by_partial_trace
+#print axioms PW.Props.C20.bystander_untouched_by_povm_routing
+#print axioms PW.Props.C20.bystander_untouched_by_resize
+#print axioms PW.Props.C20.bystander_untouched_by_measurement
